@@ -1,6 +1,8 @@
 """C03 - a single client sees an exact dictionary with expiry, tags, statistics."""
 
 import itertools
+import pickle
+import pickletools
 
 from .. import common, gen, probe
 from ..driver import CacheDriver, Mismatch
@@ -125,6 +127,16 @@ def random_history(rng, cfg, n_ops, wide, aliases=True):
         a = gen.pick(rng, gen.alias_keys())
         if aliases:
             keys.extend(a)
+    # bytes keys equal to the stored (pickled) form of another key: same key column, different raw flag; being
+    # blobs that start with the pickle header they sort last, where reverse iteration starts
+    proto = cfg.get('disk_pickle_protocol', pickle.HIGHEST_PROTOCOL)
+    pickled = [k for k in keys if type(k) in (tuple, bool, type(None))]
+    if wide:
+        pickled = [('zz', None), ('zz', 1)]
+        keys.extend(pickled)
+    for k in pickled:
+        if rng.random() < 0.5:
+            keys.append(pickletools.optimize(pickle.dumps(k, protocol=proto)))
     numeric_vals = [0, 1, -5, 2**62, 2**63 - 2, 1.5, 10]
 
     def key():
